@@ -257,8 +257,15 @@ func (o c19Obs) String() string {
 }
 
 // c19Eval evaluates src in a fresh runtime and observes the target call.
-func c19Eval(src string, p c19Pos) c19Obs {
+func c19Eval(src string, p c19Pos) c19Obs { return c19EvalWith(src, p, nil) }
+
+// c19EvalWith is c19Eval with a hook that may extend the fresh runtime (extra
+// observation builtins) before the source is evaluated.
+func c19EvalWith(src string, p c19Pos, setup func(*rt.R)) c19Obs {
 	r := rt.New(rt.Opts{MaxSteps: c19MaxSteps})
+	if setup != nil {
+		setup(r)
+	}
 	t, v := r.RunV("case.lisp", src)
 	o := c19Obs{T: t}
 	if v != nil && v.Type == lisp.LError {
@@ -405,12 +412,14 @@ func c19CoreFun(name string) c19Fun {
 // registration and case layout
 
 type c19Layout struct {
-	nReg, nUser, nShadow int
+	nReg, nUser, nShadow, nRedef int
 }
 
 func c19GetLayout() c19Layout {
-	return c19Layout{nReg: len(c19Registry()), nUser: len(c19UserSigs()), nShadow: len(c19ShadowCases())}
+	return c19Layout{nReg: len(c19Registry()), nUser: len(c19UserSigs()), nShadow: len(c19ShadowCases()), nRedef: len(c19RedefCases())}
 }
+
+func (l c19Layout) enumerated() int { return l.nReg + l.nUser + l.nShadow + l.nRedef }
 
 func c19RandomCases(tier string) int {
 	if tier == "thorough" {
@@ -424,9 +433,10 @@ func init() {
 		ID: "C19", Level: "exploration",
 		Rule: "EXHAUSTIVE part (same in both tiers): (1) every function value bound in the default environment (lisp package = core language: builtins, special operators, macros; other packages = stdlib, one direction only) x k = 0..named-params+2 integer-literal arguments (plus keyword-pair / odd-keyword / unknown-keyword argument lists for &key signatures, and the package-qualified spelling of every core name), one call per source; " +
 			"(2) defun signatures: required 0..3 x optional 0..2 x rest x key 0..2 x k = 0..6; " +
-			fmt.Sprintf("(3) shadowing contexts: %d context shapes x %d builtin names x up to %d shadow values x k = 0..%d", len(c19Shapes), len(c19Targets), len(c19Shadows), c19ShadowMaxK) + ", the binding reached decided by evaluating (probe in the shadow body, function id on the error's call stack) and a control run that replaces the target call by a probe. " +
+			fmt.Sprintf("(3) shadowing contexts: %d context shapes x %d builtin names x up to %d shadow values x k = 0..%d", len(c19Shapes), len(c19Targets), len(c19Shadows), c19ShadowMaxK) + ", the binding reached decided by evaluating (probe in the shadow body, function id on the error's call stack) and a control run that replaces the target call by a probe; " +
+			fmt.Sprintf("(4) one name defined more than once: %d placements of the call (after / between the definitions, in a function defined before / between / after them and invoked between / after them, the definitions in one package or in two) x %d definer pairs (defun/defmacro) x every ordered pair of %d different formals lists x k = 0..%d, the definition in force at the call decided by evaluating (a control run records what the name is bound to at the call's position; each definition body has its own probe). ", len(c19RedefPlaces), len(c19RedefDefiners), len(c19RedefFormals), c19RedefMaxK) +
 			"Each source is linted in the three configurations `elps lint` has (no workspace; --workspace with the file inside; --workspace reading stdin) and evaluated in a fresh runtime. " +
-			"SAMPLED part: the same three families under random neutral wrappers, argument expressions, names, line/column placement. " +
+			"SAMPLED part: the same four families under random neutral wrappers, argument expressions, names, line/column placement (and a third definition). " +
 			"A cover key is (family, kind|signature class|shape, lint mode outcome, run-time outcome class, relation of k to the accepted range).",
 		Assumptions: []string{
 			"run-time binding failure of a call = the evaluation returns an error whose own source location is the call, whose message is one of the messages produced by (*LEnv).bind/bindFormalNext, and whose call-stack top is the callee (function id compared with the registry's); errors raised later by a builtin body or by a macro's expansion do not count",
@@ -434,10 +444,11 @@ func init() {
 			"completeness for defun signatures and user-arity is only demanded in the two --workspace configurations (user-arity is documented as requiring semantic analysis)",
 			"standard-library packages are outside 'core language': only 'reported => fails binding' is demanded for them",
 			"the control run (target replaced by (verif:probe 'c19-target)) establishes that the target is evaluated exactly once; templates violating that are reported as harness errors",
+			"a name defined more than once: the evaluator loads the file top to bottom and each defun/defmacro replaces the package's binding of the name, so a call is judged against the definition in force when the call is evaluated (observed, not derived from the text); a failing call of a user macro owes no report, a reported call that binds is a violation whatever it reaches",
 		},
 		Cases: func(tier string) int {
 			l := c19GetLayout()
-			return l.nReg + l.nUser + l.nShadow + c19RandomCases(tier)
+			return l.enumerated() + c19RandomCases(tier)
 		},
 		Run:         c19Run,
 		MinDistinct: func(tier string) int { return 2200 },
@@ -457,10 +468,12 @@ func c19Run(w *fw.W, idx int) {
 		c19RunUserSig(w, c19UserSigs()[idx-l.nReg])
 	case idx < l.nReg+l.nUser+l.nShadow:
 		c19RunShadowCase(w, c19ShadowCases()[idx-l.nReg-l.nUser], nil)
+	case idx < l.enumerated():
+		c19RunRedefCase(w, c19RedefCases()[idx-l.nReg-l.nUser-l.nShadow])
 	default:
 		c19RunRandom(w, idx)
 	}
-	if w.Verbose || idx+w.NShards >= l.nReg+l.nUser+l.nShadow+c19RandomCases(w.Tier) {
+	if w.Verbose || idx+w.NShards >= l.enumerated()+c19RandomCases(w.Tier) {
 		c19Cleanup() // last case of this worker
 	}
 }
@@ -502,4 +515,5 @@ func c19Driver(d *fw.D) {
 	check("stdlib_names_enumerated", len(c19Registry())-nCore)
 	check("defun_signatures_enumerated", len(c19UserSigs()))
 	check("shadow_cases_enumerated", len(c19ShadowCases()))
+	check("redefined_cases_enumerated", len(c19RedefCases()))
 }
